@@ -37,7 +37,7 @@ COMPONENTS = {
     "real": ["DefaultRealizationFilter (cvar-*)", "EnsembleEvaluator", "config validation", "plan steps", "estimators"],
     "stub": ["SimEvaluator", "sim/scripted optimizer", "sim/inject sampler"],
 }
-PROBES = ["far_one_sided_bound", "ranking_entries_checked", "rows_compared", "ordered_compared", "pn_within_ulp_of_integer", "all_failed", "lower_bounded_constraint",
+PROBES = ["exact_ties_ranked_by_index", "pn_integer_large_n", "far_one_sided_bound", "ranking_entries_checked", "rows_compared", "ordered_compared", "pn_within_ulp_of_integer", "all_failed", "lower_bounded_constraint",
           "equality_constraint", "upper_bounded_constraint", "objective_flavour", "constraint_flavour", "some_failed",
           "tail_mean_compared", "gradient_result_rows"]
 
@@ -62,6 +62,11 @@ def _percentile(rng: random.Random, n: int) -> float:
 def generate(seed: int, index: int, tier: str) -> dict:
     rng = random.Random(seed)
     nr = rng.randint(1, 12) if index % 3 else rng.randint(1, 5)
+    large = index % 25 == 24
+    if large:
+        # large ensembles: rounding noise in the mass of the fractional realization needs n >= 49 to show (p * n an
+        # integer that 1 / n does not represent), unstable sorting of ties needs n >= 17 without SIMD sorting
+        nr = rng.choice([49, 98, 98, 196, rng.randint(17, 40), rng.randint(17, 40)])
     nc = rng.randint(0, 2)
     kinds = ["cvar-objective"] + (["cvar-constraint", "cvar-constraint"] if nc else [])
     scn = gen.base_scenario(rng, PROP, nr=nr, nc=nc, filters=True, filter_kinds=kinds, nv_max=3, npert_max=2,
@@ -70,6 +75,9 @@ def generate(seed: int, index: int, tier: str) -> dict:
     cfg = scn["configs"][0]
     for f in cfg.get("realization_filters", []):
         f["options"]["percentile"] = _percentile(rng, nr)
+        if large and nr in (49, 98, 196) and rng.random() < 0.7:
+            f["options"]["percentile"] = rng.choice([0.5, 0.25, 0.75, 0.5])
+            scn["pn_integer_large_n"] = True
     if nc:
         # make the bound kinds explicit and varied
         nl = cfg["nonlinear_constraints"]
@@ -91,6 +99,10 @@ def generate(seed: int, index: int, tier: str) -> dict:
         # everything fails at some evaluation
         scn["faults"].append({"kind": "nan", "eval": rng.randrange(0, 2), "real": None, "pert": None, "col": None})
     scn["stratum"] = ["plain", "nan-faults", "all-failed", "plain"][mode]
+    if nr >= 3 and rng.random() < (0.6 if large else 0.2):
+        gen.add_ties(rng, scn)
+    if large:
+        scn["stratum"] = "large-ensemble"
     return scn
 
 
@@ -184,6 +196,8 @@ def execute(scn: dict) -> dict:
             near_int = abs(float(k_float) - round(float(k_float))) < 1e-9
             if near_int and Fraction(p) * n != round(float(k_float)):
                 probe("pn_within_ulp_of_integer")
+            if scn.get("pn_integer_large_n") and Fraction(p) * n == round(float(k_float)) and n >= 49:
+                probe("pn_integer_large_n")
             for kind, j, w in rows:
                 compared += 1
                 probe("rows_compared")
@@ -211,9 +225,10 @@ def execute(scn: dict) -> dict:
                     if not np.allclose(sorted(w), sorted(float(x) for x in exact), rtol=0, atol=1e-12):
                         viol.append({"clause": "cvar-weight-multiset", "sig": sig, "detail": f"{where}: weights {w.tolist()}"})
                     continue
-                succ_vals = np.sort(badness[~failed])
-                if succ_vals.size > 1 and np.min(np.diff(succ_vals)) < 1e-9:
-                    continue  # ties: assignment ambiguous
+                if oracles.near_ties(badness[~failed]):
+                    continue  # near ties: assignment ambiguous (exact ties are ranked by realization index)
+                if np.unique(badness[~failed]).size < np.count_nonzero(~failed):
+                    probe("exact_ties_ranked_by_index")
                 exact, order = model.cvar_weights_exact(badness, failed, p)
                 ex = np.array([float(x) for x in exact])
                 probe("ordered_compared")
@@ -225,8 +240,6 @@ def execute(scn: dict) -> dict:
                 ktail = sum(1 for x in exact if x > 0)
                 for rank, i in enumerate(order):
                     if exact[i] == 0 and w[i] != 0:
-                        if rank == ktail and near_int and w[i] <= 1e-12:
-                            continue
                         viol.append({"clause": "weight-outside-tail", "sig": sig,
                                      "detail": f"{where}: realization {i} (rank {rank}) has weight {w[i]!r}, tail size {ktail}"})
                         break
